@@ -311,6 +311,22 @@ QUANT_CALLS = ("round", "int", "np.round", "np.around", "np.rint", "np.floor", "
 
 def quant(index, rep):
     rule = "C09.QUANT"
+    # the monthly crop output that is published (the csv written for the web interface) is the model's series: the routine that writes it
+    # neither rounds it nor formats the floats to a fixed number of decimals
+    RUNF = "src/scenarios/run_scenario.py"
+    n_csv = 0
+    bad = []
+    for n in ast.walk(index.module(RUNF)):
+        if isinstance(n, ast.Call) and isinstance(n.func, ast.Attribute) and n.func.attr == "to_csv":
+            n_csv += 1
+            if any(k.arg == "float_format" for k in n.keywords):
+                bad.append((n, "float_format"))
+            recv = n.func.value
+            if isinstance(recv, ast.Call) and isinstance(recv.func, ast.Attribute) and recv.func.attr in ("round", "astype"):
+                bad.append((n, norm_src(recv.func)[-30:] + "()"))
+    rep.check(n_csv >= 1 and not bad, rule, "published tables: written at full precision",
+              "a monthly series is quantised on the way out (" + "; ".join(w for _, w in bad) + "): the published crop output is no longer the model's",
+              loc=loc(RUNF, bad[0][0]) if bad else RUNF)
     for rel, clsname, methods in ((OC, "OutdoorCrops", ["__init__", "calculate_rotation_ratios", "calculate_monthly_production",
                                                          "assign_increase_from_increased_cultivated_area", "assign_reduction_from_climate_impact",
                                                          "set_crop_production_minus_greenhouse_area"]),
